@@ -475,6 +475,41 @@ static void build(vf::Plan &plan, const vf::Opts &o)
                    },
                    [](uint64_t i) { return strf("trailing / leading run case %llu", (unsigned long long)i); });
     }
+    // ---- the text in a char array larger than the text (what a caller reading lines into a fixed buffer passes): the array denotes
+    // the C string in it, for both decoders and all three forms
+    {
+        plan.stage("text in a char[12] / char[64] array larger than the text: both codecs x allocating / caller-buffer / size query", 2 * 6,
+                   [](uint64_t i, Ctx &c) {
+                       unsigned codec = (unsigned)vf::take(i, 2), k = (unsigned)i;
+                       static const char *const HX[6] = {"01", "abCD", "", "00ff7f", "0g", "123"};
+                       static const char *const B6[6] = {"AQ==", "AQID", "", "AQIDBA==", "A!==", "AQI"};
+                       const char *t = codec ? B6[k] : HX[k];
+                       char small[12] = {0}, big[64];
+                       memset(big, 0, sizeof big);
+                       strcpy(small, t);
+                       strcpy(big, t);
+                       ST::string st = ST::string::from_validated(t, strlen(t));
+                       auto run = [&](auto &&arg, std::string &bytes, long &ret, long &query) {
+                           return vf::guard([&] {
+                               char out[64];
+                               ret = codec ? (long)ST::base64_decode(arg, out, sizeof out) : (long)ST::hex_decode(arg, out, sizeof out);
+                               query = codec ? (long)ST::base64_decode(arg, nullptr, 0) : (long)ST::hex_decode(arg, nullptr, 0);
+                               ST::char_buffer b = codec ? ST::base64_decode(arg) : ST::hex_decode(arg);
+                               bytes.assign(b.data(), b.size());
+                           });
+                       };
+                       std::string b0, b1, b2;
+                       long r0 = 0, r1 = 0, r2 = 0, q0 = 0, q1 = 0, q2 = 0;
+                       vf::Outcome o0 = run(st, b0, r0, q0), o1 = run(small, b1, r1, q1), o2 = run(big, b2, r2, q2);
+                       VF_COUNT("validated");
+                       if (o1.kind != o0.kind || o2.kind != o0.kind || r1 != r0 || r2 != r0 || q1 != q0 || q2 != q0 || b1 != b0 || b2 != b0)
+                           c.fail(strf("%s_decode(char array larger than its text):differs-from-the-string", codec ? "base64" : "hex"),
+                                  strf("text %s: as ST::string %s/%ld/%ld, in char[12] %s/%ld/%ld, in char[64] %s/%ld/%ld", vf::vis(t).c_str(), vf::outkind_name(o0.kind), r0, q0,
+                                       vf::outkind_name(o1.kind), r1, q1, vf::outkind_name(o2.kind), r2, q2));
+                       c.nontrivial();
+                   },
+                   [](uint64_t i) { return strf("char-array case %u", (unsigned)i); });
+    }
     // ---- a text of 2^32 characters (decoded sizes beyond 2^31): size queries, capacity checks and, in the thorough tier, the
     // complete decode.  The text's block shares a 16 MiB window of real memory filled with '0', a character of both alphabets.
 #ifndef VF_ASAN
